@@ -55,13 +55,15 @@ func (r *Router) route(s Sender, p stanza.Packet) {
 	}
 	iq, isIq := p.(*stanza.IQ)
 	if isIq {
-		r.IQResultRouteLock.RLock()
+		// Look the pending request up and take it out of the table in one step: of two responses with
+		// the same id only one may find it
+		r.IQResultRouteLock.Lock()
 		route, ok := r.IQResultRoutes[iq.Id]
-		r.IQResultRouteLock.RUnlock()
 		if ok {
-			r.IQResultRouteLock.Lock()
 			delete(r.IQResultRoutes, iq.Id)
-			r.IQResultRouteLock.Unlock()
+		}
+		r.IQResultRouteLock.Unlock()
+		if ok {
 			route.result <- *iq
 			close(route.result)
 			return
